@@ -2,13 +2,18 @@ package sim
 
 import (
 	"fmt"
+	"io"
 	"math/big"
 	"math/rand/v2"
 	"sort"
 	"strings"
 
 	"github.com/bnb-chain/tss-lib/v2/common"
+	"github.com/bnb-chain/tss-lib/v2/crypto"
 	"github.com/bnb-chain/tss-lib/v2/crypto/modproof"
+	"github.com/bnb-chain/tss-lib/v2/crypto/mta"
+	"github.com/bnb-chain/tss-lib/v2/crypto/paillier"
+	"github.com/bnb-chain/tss-lib/v2/tss"
 )
 
 // C11, harness-built transcripts: a proof that satisfies every equation its verifier checks and fails
@@ -30,6 +35,9 @@ func c11Transcripts() []c11Attack {
 		// wrapping): direct boundary probes of the exported operations. Pure functions, no simulation
 		// involved; the scalar side cannot be reached from the network (the multiplier is Bob's own
 		// secret), the ciphertext side is also covered in situ by C13's N^2 / +N cells
+		// a deviating prover written out in the harness: Bob's proof with check for the multiplier q-w with the
+		// commitment point negated (every equation holds, the point equation up to sign)
+		{ID: "bob-wc/transcript-negated-multiplier", Kind: "bobwc-negated", Guard: "g^s1 = X^e * u as points"},
 		{ID: "paillier-domain/scalar", Kind: "domain", Guard: "plaintext and multiplier in [0,N)"},
 		{ID: "paillier-domain/ciphertext", Kind: "domain", Guard: "ciphertext in [0,N^2) and a unit"},
 	}
@@ -106,6 +114,10 @@ func driveC11Transcript(rc *RunCtx) {
 	}
 	if sc.Str("akind", "") == "domain" {
 		drivePaillierDomain(rc, id, r)
+		return
+	}
+	if sc.Str("akind", "") == "bobwc-negated" {
+		driveBobWCNegated(rc, id, r)
 		return
 	}
 	var N *big.Int
@@ -221,6 +233,130 @@ func drivePaillierDomain(rc *RunCtx, id string, r *rand.Rand) {
 		sort.Strings(accepted)
 		rc.Res.Cells[id] = "accepted"
 		rc.Fail("false-statement-accepted", "attack %s (guard: %s): accepted without an error: %s", id, sc.Str("guard", ""), strings.Join(accepted, "; "))
+		rc.Res.Violation.Key = "c11-accepted#" + id
+	}
+}
+
+// proveBobWCCustom is the prover of Bob's proof with check written out in the harness so that a deviating
+// prover can be run: with negate=false it is the honest algorithm (used as a control: the library's
+// verifier must accept it), with negate=true the multiplier is q-w for X = w*G and the published
+// commitment point is -(alpha*G): every equation over the integers and modulo NTilde / N^2 holds for the
+// multiplier q-w, and the point equation holds up to sign (g^s1 = -(X^e + U)).
+func proveBobWCCustom(session []byte, pk *paillier.PublicKey, NTilde, h1, h2, c1 *big.Int, w, y *big.Int, negate bool, rd io.Reader) (*mta.ProofBobWC, *big.Int, *crypto.ECPoint, error) {
+	ec := tss.S256()
+	q := ec.Params().N
+	x := new(big.Int).Set(w)
+	if negate {
+		x = new(big.Int).Sub(q, w)
+	}
+	X := crypto.ScalarBaseMult(ec, w)
+	// Bob's response ciphertext for the multiplier he really used
+	cy, r, err := pk.EncryptAndReturnRandomness(rd, y)
+	if err != nil {
+		return nil, nil, nil, err
+	}
+	c2, err := pk.HomoMult(x, c1)
+	if err == nil {
+		c2, err = pk.HomoAdd(c2, cy)
+	}
+	if err != nil {
+		return nil, nil, nil, err
+	}
+	q3 := new(big.Int).Mul(q, new(big.Int).Mul(q, q))
+	q7 := new(big.Int).Mul(new(big.Int).Mul(q3, q3), q)
+	qNT, q3NT := new(big.Int).Mul(q, NTilde), new(big.Int).Mul(q3, NTilde)
+	alpha := common.GetRandomPositiveInt(rd, q3)
+	rho := common.GetRandomPositiveInt(rd, qNT)
+	sigma := common.GetRandomPositiveInt(rd, qNT)
+	tau := common.GetRandomPositiveInt(rd, q3NT)
+	rhoPrm := common.GetRandomPositiveInt(rd, q3NT)
+	beta := common.GetRandomPositiveRelativelyPrimeInt(rd, pk.N)
+	gamma := common.GetRandomPositiveInt(rd, q7)
+	u := crypto.ScalarBaseMult(ec, new(big.Int).Mod(alpha, q))
+	if negate {
+		u, err = crypto.NewECPoint(ec, u.X(), new(big.Int).Sub(ec.Params().P, u.Y()))
+		if err != nil {
+			return nil, nil, nil, err
+		}
+	}
+	mNT := common.ModInt(NTilde)
+	z := mNT.Mul(mNT.Exp(h1, x), mNT.Exp(h2, rho))
+	zPrm := mNT.Mul(mNT.Exp(h1, alpha), mNT.Exp(h2, rhoPrm))
+	t := mNT.Mul(mNT.Exp(h1, y), mNT.Exp(h2, sigma))
+	mN2 := common.ModInt(pk.NSquare())
+	v := mN2.Mul(mN2.Mul(mN2.Exp(c1, alpha), mN2.Exp(pk.Gamma(), gamma)), mN2.Exp(beta, pk.N))
+	wv := mNT.Mul(mNT.Exp(h1, gamma), mNT.Exp(h2, tau))
+	eHash := common.SHA512_256i_TAGGED(session, append(pk.AsInts(), X.X(), X.Y(), c1, c2, u.X(), u.Y(), z, zPrm, t, v, wv)...)
+	e := common.RejectionSample(q, eHash)
+	mN := common.ModInt(pk.N)
+	s := mN.Mul(mN.Exp(r, e), beta)
+	s1 := new(big.Int).Add(new(big.Int).Mul(e, x), alpha)
+	s2 := new(big.Int).Add(new(big.Int).Mul(e, rho), rhoPrm)
+	t1 := new(big.Int).Add(new(big.Int).Mul(e, y), gamma)
+	t2 := new(big.Int).Add(new(big.Int).Mul(e, sigma), tau)
+	return &mta.ProofBobWC{ProofBob: &mta.ProofBob{Z: z, ZPrm: zPrm, T: t, V: v, W: wv, S: s, S1: s1, S2: s2, T1: t1, T2: t2}, U: u}, c2, X, nil
+}
+
+// driveBobWCNegated: control (honest custom prover accepted) and the deviating prover (must be rejected).
+func driveBobWCNegated(rc *RunCtx, id string, r *rand.Rand) {
+	sc := rc.Sc
+	fx, err := LoadECFixtures()
+	if err != nil {
+		rc.Fail("harness", "%v", err)
+		return
+	}
+	v := sc.Int("variant", 0)
+	A, B := fx[v%5], fx[(v+1)%5]
+	pk := &A.PaillierSK.PublicKey
+	session := []byte(fmt.Sprintf("session-%d", v))
+	st := &Stepper{Seed: rc.EntropySeed("bobwc-negated"), Ch: NewChooser(0, nil, true)}
+	rd := st.NewNodeRand("bob", "rand")
+	q := Secp.n
+	var controlOK, forgedAccepted, forgedWire bool
+	var herr error
+	out := st.Run(func() {
+		c1, err := pk.Encrypt(rd, randScalar(r, q))
+		if err != nil {
+			herr = err
+			return
+		}
+		w, y := randScalar(r, q), randScalar(r, q)
+		pf, c2, X, err := proveBobWCCustom(session, pk, A.NTildei, A.H1i, A.H2i, c1, w, y, false, rd)
+		if err != nil {
+			herr = err
+			return
+		}
+		controlOK = pf.Verify(session, tss.S256(), pk, A.NTildei, A.H1i, A.H2i, c1, c2, X)
+		if !controlOK {
+			return
+		}
+		pf2, c2f, X2, err := proveBobWCCustom(session, pk, A.NTildei, A.H1i, A.H2i, c1, w, y, true, rd)
+		if err != nil {
+			herr = err
+			return
+		}
+		forgedAccepted = pf2.Verify(session, tss.S256(), pk, A.NTildei, A.H1i, A.H2i, c1, c2f, X2)
+		parts := pf2.Bytes()
+		if p3, err := mta.ProofBobWCFromBytes(tss.S256(), cloneParts(parts[:])); err == nil {
+			forgedWire = p3.Verify(session, tss.S256(), pk, A.NTildei, A.H1i, A.H2i, c1, c2f, X2)
+		}
+	})
+	_ = B
+	if out.Panic != nil {
+		rc.Fail("panic", "%s: %v\n%s", id, out.Panic, firstRepoFrames(out.Stack))
+		return
+	}
+	if herr != nil || !controlOK {
+		rc.Fail("harness", "%s: the harness's copy of Bob's prover is not accepted by the library's verifier on an honest statement (err=%v)", id, herr)
+		return
+	}
+	rc.Res.Cells = map[string]string{id: "rejected"}
+	rc.Res.Nontrivial = true
+	rc.Res.Faults["transcript:"+sc.Str("guard", "")]++
+	rc.Res.Sample = map[string]interface{}{"attack": id, "guard": sc.Str("guard", ""), "outcome": "rejected"}
+	if forgedAccepted || forgedWire {
+		rc.Res.Cells[id] = "accepted"
+		rc.Fail("false-statement-accepted", "attack %s (guard: %s): Bob's proof with check was accepted for the multiplier q-w although the public point is w*G (commitment point negated, g^s1 = -(X^e+U))", id, sc.Str("guard", ""))
 		rc.Res.Violation.Key = "c11-accepted#" + id
 	}
 }
